@@ -307,6 +307,13 @@ def _c17_runs(tier):
             for i in range(n):
                 r.append(dict(h='mc_modelfault', label='modelfault-%s-%s-mmap%s-shard%d' % (model, f, mmap, i), env=MF_ENV,
                               args=['--model', model, '--file', f, '--mmap', mmap, '--stride', stride, '--dense', dense, '--shard', '%d/%d' % (i, n)]))
+    # synthetic parameter files (harness/synth_model.h): the loaders no bundled model selects
+    synth = [('synth-semi', 'means'), ('synth-semi', 'mixture_weights'), ('synth-ms', 'variances'), ('synth-ms', 'mixture_weights'), ('synth-mixw', 'mixture_weights')]
+    for model, f in synth:
+        n = 4 if tier == 'quick' else 8
+        for i in range(n):
+            r.append(dict(h='mc_modelfault', label='modelfault-%s-%s-shard%d' % (model, f, i), env=MF_ENV,
+                          args=['--model', model, '--file', f, '--mmap', '1', '--stride', '262144' if tier == 'quick' else '8192', '--dense', dense, '--shard', '%d/%d' % (i, n)]))
     return r
 
 
@@ -474,7 +481,8 @@ CHECKS = {
         runs={'quick': _c17_runs('quick'), 'thorough': _c17_runs('thorough')},
         budget_s={'quick': 900, 'thorough': 7200},
         coverage=ex_cov,
-        rule='fault enumeration on decoder_init end to end, per model (en-us, fr-fr) and per file (mdef, means, variances, sendump, '
+        rule='fault enumeration on decoder_init end to end, per model (en-us, fr-fr, and three synthetic ones for the scorer modules the bundled '
+             'models do not select) and per file (mdef, means, variances, sendump, mixture_weights, '
              'transition_matrices, feat_params.json, a feature_transform): the file missing; EVERY truncation length in the header and the '
              'first 512 B (quick) / 4 KiB (thorough) of payload, on a stride through the bulk (65536 quick / 2048 thorough) and the last 16 lengths; every 32-bit word of '
              'the first 256 payload bytes set to {0,1,v-1,v+1,2v,0x7fffffff,0xffffffff,byteswap(v)}; single-bit flips in the header text, '
@@ -484,7 +492,8 @@ CHECKS = {
              'level. non-trivial = the fault was rejected through the return value',
         assumptions=['allocation requests above 256 MiB fail deterministically (ASan max_allocation_size_mb), as on a small machine',
                      'the feature_transform of tests/data does not fit the bundled models: it is only probed for safe rejection',
-                     'mixture_weights files (models without a senone dump) are not bundled and not explored'] + TRUST,
+                     'mixture_weights files are not bundled: the loaders that read them (s2_semi_mgau, ms_mgau/ms_senone/ms_gauden, ptm_mgau without a dump) '
+                     'are explored on synthetic checksummed parameter files written by the harness'] + TRUST,
     ),
     'C18': dict(
         title='features and scores stay finite and within range for any audio',
